@@ -1021,6 +1021,29 @@ impl World {
         false
     }
 
+    /// Feature `monitors`: `m.monitor(a)` / `m.unmonitor(a)`. Without the feature: `nomon`.
+    pub fn monitor(&mut self, m: usize, a: usize, on: bool) {
+        #[cfg(feature = "monitors")]
+        match (self.me(m), self.me(a)) {
+            (Some(x), Some(y)) => {
+                if on {
+                    x.get_cell().monitor(y.get_cell())
+                } else {
+                    x.get_cell().unmonitor(y.get_cell())
+                }
+            }
+            _ => verif::note("nocell".into()),
+        }
+        #[cfg(not(feature = "monitors"))]
+        {
+            let _ = (m, a, on);
+            verif::note("nomon".into());
+        }
+    }
+    pub fn monitors_enabled(&self) -> bool {
+        cfg!(feature = "monitors")
+    }
+
     /// The public `ActorCell::link` / `unlink`.
     pub fn link(&mut self, a: usize, p: usize) {
         match (self.me(a), self.me(p)) {
@@ -1337,6 +1360,48 @@ impl World {
                 s.joined = true;
             }
         }
+        // feature `monitors`: `monemit <to pid> <kind> <who pid> s<0|1> <text>` (hook in `notify_supervisor`,
+        // one per monitor, HashMap order): pids -> indices, each run of consecutive notes sorted by target;
+        // `mondrop <who pid> <monitor pid>` (a send to a dead monitor failed): a sorted extra field
+        let mut md: Vec<String> = Vec::new();
+        {
+            let pid_idx = |p: &str| -> String {
+                match p.parse::<u64>().ok().and_then(|p| self.sh.pids.lock().unwrap().get(&p).copied()) {
+                    Some(i) => i.to_string(),
+                    None => format!("?{p}"),
+                }
+            };
+            let mut out: Vec<String> = Vec::new();
+            let mut run: Vec<(usize, String)> = Vec::new();
+            let flush = |run: &mut Vec<(usize, String)>, out: &mut Vec<String>| {
+                run.sort();
+                out.extend(run.drain(..).map(|x| x.1));
+            };
+            for e in ev.drain(..) {
+                let w: Vec<&str> = e.split(' ').collect();
+                match w.as_slice() {
+                    ["monemit", to, kind, who, st, text] => {
+                        let to_i = pid_idx(to);
+                        let who_i = pid_idx(who);
+                        let line = match *kind {
+                            "Started" => format!("monemit {to_i} Started {who_i}"),
+                            "Terminated" => format!("monemit {to_i} Terminated {who_i} {st} {text}"),
+                            "Failed" => format!("monemit {to_i} Failed {who_i} {text}"),
+                            k => format!("monemit {to_i} {k} {who_i}"),
+                        };
+                        run.push((to_i.parse::<usize>().unwrap_or(usize::MAX), line));
+                    }
+                    ["mondrop", who, m] => md.push(format!("{}:{}", pid_idx(who), pid_idx(m))),
+                    _ => {
+                        flush(&mut run, &mut out);
+                        out.push(e);
+                    }
+                }
+            }
+            flush(&mut run, &mut out);
+            ev = out;
+            md.sort();
+        }
         // kills issued by a `terminate()` (hook note `treekill <pid>`): a sorted extra field
         let mut tk: Vec<usize> = Vec::new();
         let mut tk_unknown = false;
@@ -1422,7 +1487,7 @@ impl World {
             m.sort();
             tables.push(format!("{g}={}", if m.is_empty() { "-".to_string() } else { m.join(",") }));
         }
-        let tail = if tk.is_empty() && !tk_unknown {
+        let mut tail = if tk.is_empty() && !tk_unknown {
             String::new()
         } else {
             format!(
@@ -1431,6 +1496,9 @@ impl World {
                 if tk_unknown { "?" } else { "" }
             )
         };
+        if !md.is_empty() {
+            tail.push_str(&format!(" | md={}", md.join(",")));
+        }
         format!(
             "{evs} | {} | run={} | {}{tail}",
             if st.is_empty() { "-".to_string() } else { st.join(" ") },
